@@ -39,7 +39,7 @@ CLAIMED = {
          "Row-at-a-time vs end-of-statement differences are marked ambiguous and decide nothing."),
 
  "C26": ("exploration", "privilege-set reference model + canary scan (values unique per table) + unchanged-state check, under random GRANT/REVOKE histories",
-         "Statements of 22 shapes are issued by a non-admin role between random GRANT/REVOKE steps; success without the needed privilege, leaked canaries, data changes by failed statements and denials despite held privileges are violations.",
+         "Statements of 25 shapes are issued by a non-admin role between random GRANT/REVOKE steps; success without the needed privilege, leaked canaries, data changes by failed statements and denials despite held privileges are violations.",
          "View access is accepted with SELECT on the view or its base table."),
 
  "C25": ("exploration", "every cache hit is compared with uncached execution at the moment of the hit (twin execution), under random read/write interleavings",
